@@ -131,9 +131,20 @@ def run_check(pid, tier, seed, replay=None, jobs=None):
     # confirm violations on the stock simulator (the accelerated evaluator is not trusted for verdicts)
     confirmed = []
     if violations and getattr(mod, "CONFIRM_STOCK", False) and env.fastsim_enabled():
+        # the stock interpreter is 15-20x slower: confirm, for every distinct failing clause, the scenario that reaches it soonest
+        order = sorted(violations, key=lambda v: (v[1].get("confirm_hint") is None, v[1].get("confirm_hint") or 0))
+        chosen, covered = [], set()
+        for v in order:
+            ks = {k for k, _ in v[2]}
+            if not ks <= covered:
+                chosen.append(v)
+                covered |= ks
+        rest = [v for v in violations if not any(v is c for c in chosen)]
+        violations = chosen[:jobs] + chosen[jobs:] + rest
+        nconf = min(len(chosen), jobs)
         with ProcessPoolExecutor(max_workers=jobs) as ex:
             futs = {ex.submit(_exec_one, pid, dict(sc, confirm_hint=r.get("confirm_hint")), os.path.join(work, "confirm%d" % i), True): (sc, r, vbad)
-                    for i, (sc, r, vbad) in enumerate(violations[:jobs])}
+                    for i, (sc, r, vbad) in enumerate(violations[:nconf])}
             for fu in as_completed(futs):
                 sc, r, vbad = futs[fu]
                 r2 = fu.result()
@@ -147,7 +158,7 @@ def run_check(pid, tier, seed, replay=None, jobs=None):
                     machinery.append("violation in %s not reproduced on the stock simulator (fastsim divergence)" % sc["name"])
         # scenarios beyond the confirmation budget: reported when the same clause was confirmed on the stock simulator elsewhere
         ckeys = {k for _, _, vb in confirmed for k, _ in vb}
-        for sc, r, vbad in violations[jobs:]:
+        for sc, r, vbad in violations[nconf:]:
             if any(k in ckeys for k, _ in vbad):
                 confirmed.append((sc, r, vbad))
             else:
